@@ -6,9 +6,11 @@ import (
 	"fmt"
 	"os"
 	"regexp"
+	"runtime"
 	"runtime/debug"
 	"sort"
 	"strings"
+	"time"
 
 	"golang.org/x/tools/go/ssa"
 )
@@ -33,6 +35,26 @@ func main() {
 	if *overlay != "" && !*noEvidence {
 		infraFail("-overlay is only allowed together with -no-evidence")
 	}
+
+	// watchdog: a runaway analysis is an infrastructure failure (exit 2, no verdict), never a hang
+	go func() {
+		limit := 20 * time.Minute
+		if d, err := time.ParseDuration(os.Getenv("GOATVERIF_TIMEOUT")); err == nil && d > 0 {
+			limit = d
+		}
+		deadline := time.Now().Add(limit)
+		for {
+			time.Sleep(2 * time.Second)
+			var ms runtime.MemStats
+			runtime.ReadMemStats(&ms)
+			if ms.HeapAlloc > 12<<30 {
+				infraFail("watchdog: heap grew beyond 12 GiB (runaway analysis)")
+			}
+			if time.Now().After(deadline) {
+				infraFail("watchdog: analysis did not finish within %s", limit)
+			}
+		}
+	}()
 
 	defer func() {
 		if r := recover(); r != nil {
